@@ -334,10 +334,10 @@ func (fc *factCtx) cmps() []cmpFact {
 
 // lenGreater: do the facts imply len(E) > c ?
 func (fc *factCtx) lenGreater(E ast.Expr, c int64) bool {
-	want := normExpr(fc.info, E)
+	want := idExpr(fc.info, E)
 	for _, f := range fc.cmps() {
 		arg, ok := isLenOf(fc.info, f.x)
-		if !ok || normExpr(fc.info, arg) != want {
+		if !ok || idExpr(fc.info, arg) != want {
 			continue
 		}
 		n, ok := intLit(fc.info, f.y)
@@ -368,15 +368,15 @@ func (fc *factCtx) lenGreater(E ast.Expr, c int64) bool {
 
 // less: do the facts imply I < len(E) ?
 func (fc *factCtx) idxBelowLen(I, E ast.Expr) bool {
-	wi, we := normExpr(fc.info, I), normExpr(fc.info, E)
+	wi, we := idExpr(fc.info, I), idExpr(fc.info, E)
 	for _, f := range fc.cmps() {
 		if f.op != token.LSS {
 			continue
 		}
-		if normExpr(fc.info, f.x) != wi {
+		if idExpr(fc.info, f.x) != wi {
 			continue
 		}
-		if arg, ok := isLenOf(fc.info, f.y); ok && normExpr(fc.info, arg) == we {
+		if arg, ok := isLenOf(fc.info, f.y); ok && idExpr(fc.info, arg) == we {
 			// the same index variable must denote the same object
 			return true
 		}
@@ -414,9 +414,9 @@ func (fc *factCtx) nonNeg(e ast.Expr, depth int) bool {
 			return false
 		}
 		// explicit facts
-		w := normExpr(fc.info, x)
+		w := idExpr(fc.info, x)
 		for _, f := range fc.cmps() {
-			if normExpr(fc.info, f.x) != w {
+			if idExpr(fc.info, f.x) != w {
 				continue
 			}
 			if n, ok := intLit(fc.info, f.y); ok {
